@@ -134,10 +134,73 @@ func writeReplay(p *Prog, o *Obligation, prop, verif, repo string) ReplayInfo {
 	} else {
 		rf.Note = "the solver produced no model (" + o.Res.Status + "): obligation undischarged, no failing input found"
 	}
+	if !rf.Confirmed {
+		tryScenario(p, o, rf, repo, verif)
+	}
 	path := filepath.Join(dir, sanitize(o.Name)+".json")
 	b, _ := json.MarshalIndent(rf, "", " ")
 	_ = os.WriteFile(path, append(b, '\n'), 0o644)
 	return ReplayInfo{Path: path, Confirmed: rf.Confirmed}
+}
+
+var scenarioCache = map[string][2]string{}
+
+// tryScenario: when the counterexample lives in ghost state (a stream, a queue log)
+// and cannot be turned into a call of the function, the contract may name a scenario
+// battery: a test kept under /verif/scenarios that drives the real function with
+// adversarial inputs and compares with the reference semantics. It is run only after an
+// obligation of the function has failed; a SCENARIO-FAIL line is a concrete failing
+// input on the tree under check.
+func tryScenario(p *Prog, o *Obligation, rf *ReplayFile, repo, verif string) {
+	if o.Ex == nil || o.Ex.fc == nil || o.Ex.fc.Scenario == "" || o.Ex.fn == nil {
+		return
+	}
+	name := o.Ex.fc.Scenario
+	res, done := scenarioCache[name]
+	if !done {
+		var src []byte
+		var err error
+		for _, d := range []string{filepath.Join(verif, "scenarios"), scenarioDir()} {
+			if src, err = os.ReadFile(filepath.Join(d, name+".go.txt")); err == nil {
+				break
+			}
+		}
+		if err != nil {
+			return
+		}
+		fn := o.Ex.fn
+		for fn.Parent() != nil {
+			fn = fn.Parent()
+		}
+		if fn.Pkg == nil {
+			return
+		}
+		out, rerr := runOverlayTest(p, repo, fn.Pkg.Pkg.Path(), string(src))
+		es := ""
+		if rerr != nil {
+			es = rerr.Error()
+		}
+		res = [2]string{out, es}
+		scenarioCache[name] = res
+	}
+	out := res[0]
+	if strings.Contains(out, "SCENARIO-FAIL") {
+		rf.Confirmed = true
+		rf.Note = "confirmed on the real code by the scenario battery scenarios/" + name + ".go.txt (a concrete failing input found by driving the function, not the solver's model; see test_output)"
+		rf.TestOutput = truncate(out, 6000)
+	} else if strings.Contains(out, "SCENARIO-DONE") {
+		rf.Note += "; the scenario battery scenarios/" + name + ".go.txt found no failing input"
+	} else if res[1] != "" {
+		rf.Note += "; the scenario battery did not run: " + truncate(out, 400)
+	}
+}
+
+func scenarioDir() string {
+	exe, err := os.Executable()
+	if err != nil {
+		return "/verif/scenarios"
+	}
+	return filepath.Join(filepath.Dir(filepath.Dir(exe)), "scenarios")
 }
 
 func writeUnboundReplay(key, prop, verif string) string {
@@ -183,7 +246,46 @@ func trustedBase(prop string, rr *RunResult) ([]string, []string) {
 	if extra, ok := propTrusted[prop]; ok {
 		tb = append(tb, extra...)
 	}
-	return tb, as
+	// the per-property statement of what is assumed and what is not decided
+	// (the level_note of the claim in MANIFEST.json)
+	if note := manifestNote(prop); note != "" {
+		as = append([]string{"claim note (MANIFEST level_note): " + note}, as...)
+	}
+	// one line per distinct assumption
+	seen := map[string]bool{}
+	var uniq []string
+	for _, a := range as {
+		if !seen[a] {
+			seen[a] = true
+			uniq = append(uniq, a)
+		}
+	}
+	return tb, uniq
+}
+
+func manifestNote(prop string) string {
+	data, err := os.ReadFile(filepath.Join(flagVerif, "MANIFEST.json"))
+	if err != nil {
+		data, err = os.ReadFile("/verif/MANIFEST.json")
+		if err != nil {
+			return ""
+		}
+	}
+	var m struct {
+		Checks []struct {
+			PropertyID string `json:"property_id"`
+			LevelNote  string `json:"level_note"`
+		} `json:"checks"`
+	}
+	if json.Unmarshal(data, &m) != nil {
+		return ""
+	}
+	for _, c := range m.Checks {
+		if c.PropertyID == prop {
+			return c.LevelNote
+		}
+	}
+	return ""
 }
 
 var propAssumptions = map[string][]string{}
